@@ -217,17 +217,55 @@ func (st *State) heapGet(name string, sort Sort) Term {
 type pendingAxiom struct {
 	name string
 	arr  Term
+	elem bool // arr is one havoced element (scalar or inner array) of array `name`, not the whole array
 }
 
 // flushAxioms asserts the typing axioms of freshly havoced arrays against the current allocation
 // counter (called once the counter has been advanced past whatever the havoc may have allocated).
 func (st *State) flushAxioms() {
 	for _, p := range st.pendingAx {
+		if p.elem {
+			if ax, ok := st.x.elemAxiom(p.name, p.arr, st.alloc); ok {
+				st.assume(ax)
+			}
+			continue
+		}
 		if ax, ok := st.x.typeAxiom(p.name, p.arr, st.alloc); ok {
 			st.assume(ax)
 		}
 	}
 	st.pendingAx = nil
+}
+
+// elemAxiom: typing of one havoced element (a scalar, or the inner array of a two-level array).
+func (x *Exec) elemAxiom(name string, el Term, alloc Term) (Term, bool) {
+	c, ok := x.leaf[name]
+	if !ok {
+		return Term{}, false
+	}
+	var v Term
+	var vars []Term
+	if el.Sort.IsArray() {
+		j := Term{"j!ea", SInt}
+		v = Select(el, j)
+		vars = []Term{j}
+	} else {
+		v = el
+	}
+	if v.Sort != SInt {
+		return Term{}, false
+	}
+	var body Term
+	if lo, hi, isInt := intRange(c.Typ); isInt && !strings.HasSuffix(c.Suffix, "#a") && !strings.HasSuffix(c.Suffix, "#l") {
+		body = And(Le(Term{lo, SInt}, v), Le(v, Term{hi, SInt}))
+	} else if isNamed(c.Typ, "time", "Time") {
+		return Term{}, false
+	} else if isRefLike(c) {
+		body = And(Ge(v, TZero), Le(v, alloc))
+	} else {
+		body = Ge(v, TZero)
+	}
+	return Forall(vars, body), true
 }
 
 // typeAxiom: every element of a heap array respects the Go type of the field it models.
@@ -316,7 +354,7 @@ func freshNumber(t Term) int {
 func (st *State) heapHavoc(name string, sort Sort) Term {
 	n := st.fresh("Hh", sort)
 	st.heap[name] = n
-	st.pendingAx = append(st.pendingAx, pendingAxiom{name, n})
+	st.pendingAx = append(st.pendingAx, pendingAxiom{name, n, false})
 	st.noteWrite(name, nil)
 	return n
 }
